@@ -18,12 +18,14 @@ MTIMES = [1_000_000_000_123_456_789, 946_684_800_000_000_001, 4_102_444_800_500_
 def u64(v):
     """times before the epoch are negative: the model carries a time as an opaque natural number"""
     return v if v >= 0 else (1 << 64) + v
-XATTRS = [{}, {"user.a": b"1"}, {"user.comment": b"hello world", "user.empty": b"", "user.bin": bytes(range(256))}]
+XATTRS = [{}, {"user.a": b"1"}, {"user.comment": b"hello world", "user.empty": b"", "user.bin": bytes(range(256))},
+          # attribute NAMES are byte strings too: Latin-1, bytes that are no UTF-8 at all, UTF-8 beyond ASCII
+          {os.fsdecode(b"user.caf\xe9"): b"latin-1 name", os.fsdecode(b"user.\xff\xfe.bin"): b"\x00\x01", "user.\u65e5\u672c": b"utf-8 name", "user.plain": b"p"}]
 IDS = [(0, 0), (1000, 1000), (1234, 42), (65534, 65534), (0, 7)]
 
 
 def name_id(name):
-    return int.from_bytes(name.encode()[:7], "big")
+    return int.from_bytes(os.fsencode(name)[:7], "big")
 
 
 def run(ctx, out):
